@@ -79,6 +79,18 @@ class Explorer:
             if any(v is UNKNOWN for v in vals):
                 return UNKNOWN
             return tuple(vals)
+        if isinstance(e, ast.Dict):
+            try:
+                ks = [self.ev(x, env) for x in e.keys]
+                vs = [self.ev(x, env) for x in e.values]
+            except Exception:
+                return UNKNOWN
+            if any(x is UNKNOWN for x in ks + vs):
+                return UNKNOWN
+            try:
+                return dict(zip(ks, vs))
+            except TypeError:
+                return UNKNOWN
         if isinstance(e, ast.UnaryOp):
             v = self.ev(e.operand, env)
             if v is UNKNOWN:
